@@ -13,6 +13,7 @@ PROP = 'C06'
 RULE = ('stratum netlists: case = (netlist of library primitives including constants and Sequence stimulus with negative '
         'and oversized values, input vectors incl. oversized pokes); every wire reachable from the HWSystem is checked '
         'after simulator creation, after every clk, inside a simulatorUpdated listener and inside Waveform data. Stratum '
+        'leaf_preparing_a_wire_twice: a user-style clocked leaf that prepares its outputs twice per edge with unreduced values. Stratum '
         'blocks: case = (catalogue block, configuration, extreme operand vector). Non-trivial iff the independent '
         'reference reports at least one node whose unreduced result was out of range (negative difference, complement, '
         'overflow, oversized constant or stimulus), i.e. the mask did work. Distinct by JSON hash.')
@@ -153,7 +154,76 @@ def run_bidir(case):
     return ok(nt, ['bidir'])
 
 
+class DefaultThenOverride(py4hw.Logic):
+    """user-written clocked leaf in the 'default assignment, then override' style: the output wire is prepared twice in
+    one edge (py4hw warns and the last value wins); the overriding value is an unreduced difference / product"""
+
+    def __init__(self, parent, name, a, b, en, r, p, mode):
+        super().__init__(parent, name)
+        self.a = self.addIn('a', a)
+        self.b = self.addIn('b', b)
+        self.en = self.addIn('en', en)
+        self.r = self.addOut('r', r)
+        self.p = self.addOut('p', p)
+        self.mode = mode
+
+    def clock(self):
+        self.r.prepare(0)
+        self.p.prepare(self.a.get() * self.b.get())
+        if self.en.get():
+            if self.mode == 'diff':
+                self.r.prepare(self.a.get() - self.b.get())
+            elif self.mode == 'neg':
+                self.r.prepare(-self.a.get() - 1)
+            else:
+                self.r.prepare((self.a.get() << 3) + self.b.get())
+            if self.mode != 'diff':
+                self.p.prepare(self.b.get() - self.a.get() * 3)
+
+
+def run_behav(case):
+    import io
+    import contextlib
+    sysm = py4hw.HWSystem()
+    wa, wr = case['wa'], case['wr']
+    a, b_, en = sysm.wire('a', wa), sysm.wire('b', wa), sysm.wire('en')
+    r, p = sysm.wire('r', wr), sysm.wire('p', wr)
+    DefaultThenOverride(sysm, 'dut', a, b_, en, r, p, case['mode'])
+    q = sysm.wire('q', wr)
+    py4hw.Reg(sysm, 'follow', r, q)
+    wf = py4hw.Waveform(sysm, 'wf', [r, p, q])
+    sim = sysm.getSimulator()
+    lst = Listener(sysm)
+    sim.addListener(lst)
+    nt = False
+    for t, (va, vb, ve) in enumerate(case['steps']):
+        a.put(va)
+        b_.put(vb)
+        en.put(ve)
+        with contextlib.redirect_stdout(io.StringIO()):
+            sim.clk(1)
+        if ve:
+            nt = True
+        bad = bad_wires(sysm) or lst.bad
+        if bad:
+            return fail('out_of_range|prepared_twice', 'after clk #{} (a={} b={} en={}): '.format(t + 1, va, vb, ve) + '; '.join(bad[:3]), cls=['behavioural_leaf'])
+    for w, data in wf.getDict().items():
+        for v in data:
+            if not isinstance(v, int) or v < 0 or v >= (1 << w.getWidth()):
+                return fail('out_of_range|waveform', 'Waveform recorded {!r} for {} (width {})'.format(v, w.getFullPath(), w.getWidth()), cls=['behavioural_leaf'])
+    return ok(nt, ['behavioural_leaf'])
+
+
+def behav_cases():
+    def steps(wa):
+        return st.lists(st.tuples(st.integers(0, mask(wa)), st.integers(0, mask(wa)), st.integers(0, 1)).map(list), min_size=1, max_size=8)
+    return st.sampled_from([1, 4, 8, 12]).flatmap(lambda wa: st.fixed_dictionaries({
+        'kind': st.just('behav'), 'wa': st.just(wa), 'wr': st.sampled_from([1, 3, 4, 8]), 'mode': st.sampled_from(['diff', 'neg', 'wide']), 'steps': steps(wa)}))
+
+
 def run_case(case):
+    if case.get('kind') == 'behav':
+        return run_behav(case)
     if 'desc' in case:
         return run_netlist(case)
     if case.get('kind') == 'bidir':
@@ -213,5 +283,6 @@ def strata(tier):
     return [
         {'name': 'netlists', 'kind': 'hyp', 'examples': a, 'strategy': lambda: netlist_cases(mx, cyc), 'run_case': run_case},
         {'name': 'bidirectional_wires', 'kind': 'hyp', 'examples': 200 if tier == 'quick' else 5000, 'strategy': bidir_cases, 'run_case': run_case},
+        {'name': 'leaf_preparing_a_wire_twice', 'kind': 'hyp', 'examples': 150 if tier == 'quick' else 4000, 'strategy': behav_cases, 'run_case': run_case},
         {'name': 'catalogue_blocks_at_extremes', 'kind': 'hyp', 'examples': b, 'strategy': block_cases, 'run_case': run_case},
     ]
